@@ -227,16 +227,17 @@ type FArg struct {
 }
 
 type FCmd struct {
-	Parent  int    `json:"parent"`
-	Name    S      `json:"name"`
-	Aliases []S    `json:"aliases"`
-	SubOpt  bool   `json:"subOpt"`
-	Hidden  bool   `json:"hidden"`
-	Exec    bool   `json:"exec"`
-	ArgsReq bool   `json:"argsReq"`
-	Args    []FArg `json:"args"`
-	Desc    S      `json:"desc"`
-	Style   string `json:"style"`
+	Parent   int    `json:"parent"`
+	Name     S      `json:"name"`
+	Aliases  []S    `json:"aliases"`
+	SubOpt   bool   `json:"subOpt"`
+	Hidden   bool   `json:"hidden"`
+	Exec     bool   `json:"exec"`
+	ArgsReq  bool   `json:"argsReq"`
+	Args     []FArg `json:"args"`
+	Desc     S      `json:"desc"`
+	LongDesc S      `json:"longDesc"`
+	Style    string `json:"style"`
 }
 
 type Decl struct {
@@ -368,7 +369,7 @@ func Flatten(t *Tree) *Decl {
 		ci := len(d.Cmds)
 		c.idx = ci
 		fc := FCmd{Parent: parent, Name: toS(c.Name), Aliases: toSs(c.Aliases), SubOpt: c.SubOpt, Hidden: c.Hidden,
-			Exec: c.Style == "exec", ArgsReq: c.ArgsReq, Desc: toS(c.Desc), Style: c.Style, Args: []FArg{}}
+			Exec: c.Style == "exec", ArgsReq: c.ArgsReq, Desc: toS(c.Desc), LongDesc: toS(c.LongDesc), Style: c.Style, Args: []FArg{}}
 		for _, a := range c.Args {
 			r, m := parseReqTag(a.ReqTag)
 			init := a.Init
